@@ -58,7 +58,7 @@ Proof. vm_compute. eexists. reflexivity. Qed.
     ordinal of every output alias; it holds for the operation of [C18_example] (alias "send": no '_' in
     "output: send #<digits>.output", and ".result" keys are not output entries), together with the other two
     premises (no recording active, a CSave among the cassette calls) ---- *)
-Lemma c18_send_clean : forall n, clean (okey_output (U"send") n) /\ clean (okey_result (U"send") n).
+Example c18_send_clean : forall n, clean (okey_output (U"send") n) /\ clean (okey_result (U"send") n).
 Proof.
   intros n. split.
   - apply C18_clean_sufficient. unfold okey_output, okey. rewrite !in_app_iff.
